@@ -244,6 +244,30 @@ def gpu_command_helpers(F):
     return out
 
 
+_RC = {}
+
+
+def z3_rect_consumers(F, M, roles, helpers, rectf):
+    """Resource ids (constant terms) that some public GPU method transfers to the host using the remembered rectangle field."""
+    key = id(F)
+    if key in _RC:
+        return _RC[key]
+    out = set()
+    for b in F.bodies.values():
+        if b.get('impl_adt') != GPU or b['kind'] != 'AssocFn' or not b.get('pub') or not F.handwritten(b):
+            continue
+        if not any(bl['term']['k'] == 'call' and helpers.get(bl['term'].get('fn')) == 'transfer_to_host_2d' for bl in b['blocks']):
+            continue
+        sg = supergraph(F, b['id'], opaque=lambda t, bb: True, tag='c20rc', max_depth=0)
+        S = sg.sym
+        for n in sg.calls(lambda d: helpers.get(d.get('fn')) == 'transfer_to_host_2d'):
+            rect = S.operand(n.id, n.d['args'][1])
+            if any(x[0] == 'loc' and any(pp[0] == 'f' and pp[1] in rectf and len(pp) > 2 and pp[2] == GPU for pp in x[2]) for x in deep_subterms(S, rect)):
+                out.add(strip_conv(S.operand(n.id, n.d['args'][3])))
+    _RC[key] = out
+    return out
+
+
 def z3_z4_gpu(F, R, M, roles):
     helpers = gpu_command_helpers(F)
     seqs = {'change_resolution': [('resource_create_2d', 'resource_attach_backing'), ('resource_attach_backing', 'set_scanout')],
@@ -342,6 +366,23 @@ def z3_z4_gpu(F, R, M, roles):
                         truth = (c_[1][0] == 'notin' and 0 in c_[1][1]) or (c_[1][0] == 'in' and 0 not in c_[1][1])
                         R.check((d[1] == 'Eq') == truth, 'Z3', '%s:image-length-test' % b['name'], fn_site(F, b['id']), 'proceeds only when the image length equals the cursor size',
                                 '%s proceeds when the image length differs from the cursor size and refuses the correct length' % b['name'])
+        # the rectangle the driver remembers for later transfers/flushes is the rectangle of the resource it creates: a body that
+        # creates the resource which `flush`-like consumers transfer from the remembered field stores that field, on every
+        # successful path, with the created width and height (otherwise flush transfers a stale rectangle of another size)
+        rectf = [f_['name'] for f_ in F.adts[GPU]['variants'][0]['fields'] if any(m.endswith('::Rect') for m in f_['mentions'])]
+        if rectf and 'resource_create_2d' in calls and z3_rect_consumers(F, M, roles, helpers, rectf):
+            for cr in calls['resource_create_2d']:
+                rid = strip_conv(S.operand(cr.id, cr.d['args'][1]))
+                if rid not in z3_rect_consumers(F, M, roles, helpers, rectf):
+                    continue
+                wh = [strip_conv(S.operand(cr.id, cr.d['args'][k])) for k in (2, 3)]
+                stores = [n for n in sg.nodes if n.kind == 'assign' and n.d['place']['p'] and isinstance(n.d['place']['p'][-1], dict)
+                          and n.d['place']['p'][-1].get('n') in rectf and n.id in live]
+                good = [n for n in stores if all(any(strip_conv(x) == w for x in deep_subterms(S, S.rvalue(n.id, n.d['rv']))) for w in wh)]
+                okr = bool(good) and all(sg.always_before([g.id for g in good], o.id) for o in oks) and len(good) == len(stores)
+                R.check(okr, 'Z3', '%s:remembered-rect-is-created-rect' % b['name'], site(sg, cr), 'the remembered rectangle is stored with the created width/height on every successful path',
+                        '%s creates the resource with %s x %s but does not record that rectangle in `%s` on every successful path: a later flush '
+                        'transfers and flushes a stale rectangle (of the previous / default resolution)' % (b['name'], fmt(wh[0])[:30], fmt(wh[1])[:30], rectf[0]))
         # Z4 for operations that attach a freshly allocated region
         att = calls.get('resource_attach_backing', [])
         for a in att:
